@@ -151,6 +151,40 @@ broadcast proof fn lemma_result_owners(r: ZoneResult, node: ZoneRecords, qname: 
     }
 }
 
+proof fn lemma_terminal_typed(r: ZoneResult, m: Map<RecordType, Vec<ZoneRecord>>, qname: DomainName, qtype: QueryType, cut: DomainName, delegable: bool)
+    requires terminal_ok(r, m, qname, qtype, cut, delegable), recs_typed(m)
+    ensures answer_typed(r, qtype)
+{
+    if r is Answer {
+        assert forall|i: int| 0 <= i < r->rrs@.len() implies qmatch(spec_rtype_of((#[trigger] r->rrs@[i]).rtype_with_data), qtype) by {
+            if let QueryType::Record(t) = qtype {
+                assert(m.contains_key(t));
+                assert(r->rrs@[i] == to_rr_spec(m[t]@[i], qname));
+                assert(spec_rtype_of(m[t]@[i].rtype_with_data) == t);
+            }
+        }
+    }
+}
+broadcast proof fn lemma_result_typed(r: ZoneResult, node: ZoneRecords, qname: DomainName, qtype: QueryType, rel: Seq<Label>, at_apex: bool)
+    requires #[trigger] lookup_ok(r, node, qname, qtype, rel, at_apex), tree_wf(node)
+    ensures answer_typed(r, qtype)
+    decreases rel.len()
+{
+    lemma_tree_wf_root(node);
+    if rel.len() == 0 {
+        lemma_terminal_typed(r, node.this@, qname, qtype, node.nsdname, !at_apex);
+    } else {
+        let l = rel.last();
+        if node.children@.contains_key(l) {
+            lemma_tree_wf_child(node, l);
+            lemma_result_typed(r, node.children@[l], qname, qtype, rel.drop_last(), false);
+        } else if node.wildcards is Some {
+            let cut = choose|cut: DomainName| cut.labels@ == seq![l] + node.nsdname.labels@ && #[trigger] terminal_ok(r, node.wildcards->Some_0@, qname, qtype, cut, true);
+            lemma_terminal_typed(r, node.wildcards->Some_0@, qname, qtype, cut, true);
+        }
+    }
+}
+
 proof fn lemma_tree_wf_root(zr: ZoneRecords)
     requires tree_wf(zr)
     ensures node_ok(zr, zr.nsdname.labels@)
